@@ -20,7 +20,7 @@ def check(run):
     run.regenerate()
     run.lean_props(common.modules_for("C19"))
     from .. import glue_diff
-    glue_diff.corr(run, quick, parts=("conv",))   # operators/conversions: model vs implementation, bit for bit
+    run.attempt("corr:glue_diff.corr", glue_diff.corr, run, quick, parts=("conv",))   # operators/conversions: model vs implementation, bit for bit
     rng = run.rng
     w0 = spherical.Wigner(1, mp_max=0)
     wf = spherical.Wigner(1)
